@@ -14,7 +14,9 @@ VERSION = 757
 class Adaptive(TracingScript):
     """Server that learns from the handshake whether this is a status or a login
     connection and then follows `behaviour`:
-       idle | disc | close | close_early | trigger | trigger2 | keepalive"""
+       idle | disc | close | close_early | trigger | trigger2 | keepalive | stall
+       (stall: a frame's length prefix and part of its body, then silence on an open connection: the networking thread
+        sits in a blocking read, not in select)"""
 
     def __init__(self, run, behaviour, version=VERSION):
         TracingScript.__init__(self, run, Profile(version), [])
@@ -45,6 +47,9 @@ class Adaptive(TracingScript):
             steps += [('send', prof.keep_alive(7)), ('send', prof.time_update(2, 2)), ('send', prof.keep_alive(8))]
         elif b == 'keepalive':
             steps += [('send', prof.keep_alive(9)), ('send', prof.keep_alive(10))]
+        elif b == 'stall':
+            whole = P.frame(prof.time_update(3, 3), None)
+            steps += [('send', prof.keep_alive(11)), ('raw', whole[:len(whole) - 5])]
         self.steps += steps
 
 
@@ -163,7 +168,7 @@ def lifecycle_events(run):
 
 
 OPS = ['connect', 'connect', 'status', 'disc', 'disc_now']
-SERVERS = ['idle', 'idle', 'disc', 'close', 'close_early', 'refuse', 'trigger', 'trigger2', 'keepalive']
+SERVERS = ['idle', 'idle', 'disc', 'close', 'close_early', 'refuse', 'trigger', 'trigger2', 'keepalive', 'stall']
 
 
 def random_spec(rng, users=2, maxops=3):
